@@ -191,6 +191,7 @@ func (w *world) doSeq(r Req) *fasthttp.RequestCtx {
 		req.Header.Set("Cache-Control", r.CC)
 	}
 	ctx.Response.Reset() // keeps the body buffer, as the server does between two requests of a connection
+	ctx.ResetUserValues()
 	ctx.Init(&req, &net.TCPAddr{IP: net.IPv4(10, 0, 0, 9), Port: 1234}, nil)
 	w.app.Handler()(ctx)
 	return ctx
